@@ -813,6 +813,21 @@ fn lattice(tier: Tier) -> Vec<(String, Vec<Transaction>)> {
     for q in ["1.5", "1.25", "0.125", "0.0625", "0.03125", "0.015625", "0.0078125", "0.00390625", "0.001953125", "0.0009765625", "3.3333333333", "1000000.5"] {
         out.push((format!("quantity {q}"), vec![alpha::buy(d0, "X", &(dec(q) * dec("2")).to_string(), "10.005", "0"), alpha::sell(d1, "X", q, "12.345", "0.1")]));
     }
+    // unit counts of ACCUMULATION / CAPRETURN events and SPLIT / UNSPLIT ratios with 1..10 decimals (the ASSET EVENTS
+    // section of the text report and the asset-events table of the PDF echo them: exactly / to six places)
+    for q in ["1.5", "1.25", "0.125", "250.125", "0.0625", "0.03125", "0.015625", "0.0078125", "0.00390625", "0.001953125", "0.0009765625", "3.3333333333", "1000000.5", "2.005", "2.995"] {
+        out.push((
+            format!("quantity-of-event {q}"),
+            vec![
+                alpha::buy(d0, "X", &(dec(q) * dec("2")).to_string(), "10.005", "0"),
+                alpha::buy(d0, "Y", "8", "3", "0"),
+                alpha::accum(alpha::date(2024, 3, 2), "X", q, "7.5", "0"),
+                alpha::capret(alpha::date(2024, 3, 3), "X", q, "1.25", "0"),
+                alpha::split(alpha::date(2024, 3, 5), "Y", q),
+                alpha::unsplit(alpha::date(2024, 3, 6), "Y", q),
+            ],
+        ));
+    }
     // a gain and a loss in one tax year, each with every sub-penny remainder (tenths of a penny): year totals whose
     // roundings do not add up
     for a in 0..=9i64 {
@@ -1002,7 +1017,7 @@ pub fn c17(tier: Tier) -> i32 {
     acc = Acc::merge(acc, part);
     ctx.require(acc.get("pdf compared") >= 20 && acc.get("front-end processes compared") >= 5, "too few PDF / front-end comparisons");
     ctx.bound = json!({"lattice": "every multiple of 0.005 in [-2.00, +2.00] for gain/proceeds and for cost/average cost (1602 ledgers)", "magnitude_points": if tier == Tier::Quick { 17 } else { 201 }, "pdf_every": pdf_every});
-    ctx.alphabets.push(json!({"families": ["gain-lattice", "cost-lattice", "million-gain (+1,000,000.995)", "million-loss (-1,234,567.885)", "fees-lattice", "usd-echo", "quantity with 1..10 decimals", "gain-loss-year (a gain and a loss in one year, every tenth-of-a-penny remainder of each)", "multi (3 years, 3 rules, dividend)"]}));
+    ctx.alphabets.push(json!({"families": ["gain-lattice", "cost-lattice", "million-gain (+1,000,000.995)", "million-loss (-1,234,567.885)", "fees-lattice", "usd-echo", "quantity with 1..10 decimals", "quantity-of-event (ACCUMULATION/CAPRETURN unit counts and SPLIT/UNSPLIT ratios with 1..10 decimals)", "gain-loss-year (a gain and a loss in one year, every tenth-of-a-penny remainder of each)", "multi (3 years, 3 rules, dividend)"]}));
     ctx.explanation = "States are reports on a value lattice: ledgers whose gain, proceeds, fees, allowable cost, Section 104 unit cost and closing average cost take every multiple of half a penny in [-2, +2] (and the same around +1,000,000.995 and -1,234,567.885), quantities with 1..10 decimals, USD echoes, a multi-year multi-rule ledger. For each, every figure shown by the plain-text report, the JSON report and the text runs of the compiled PDF (hook verif_text_runs; on every lattice point in the thorough tier) is parsed back and must equal the full-precision value of the TaxReport, either in full or rounded to pence half away from zero, in the stated dress; the lists of years, disposals, legs and positive holdings must coincide. A subset runs through the real CLI and MCP calculate_report/explain_matching. transitions = PDF compiles.".into();
     ctx.assumptions = vec!["'-£0.00' for a negative value that rounds to zero is tolerated".into()];
     ctx.finish(&acc, "model_checking")
